@@ -164,6 +164,34 @@ fn utf16_map(s: &str) -> (Vec<u16>, Vec<usize>) {
     (units, map)
 }
 
+/// Parse UTF-16 text given as raw BYTES through the C API's read callback (the Rust wrappers only hand out whole code
+/// units): a request at byte i is answered with the window [i, i + window), so chunks may end at odd offsets, inside a code
+/// unit or inside a surrogate pair. Windows of >= 4 bytes always hold the character that starts at the requested offset.
+pub fn parse_utf16_bytes(lang: &tree_sitter::Language, bytes: &[u8], window: usize, le: bool) -> Tree {
+    use std::os::raw::{c_char, c_void};
+    use tree_sitter::ffi;
+    struct Pay { ptr: *const u8, len: usize, window: usize }
+    unsafe extern "C" fn read(payload: *mut c_void, byte_index: u32, _pos: ffi::TSPoint, bytes_read: *mut u32) -> *const c_char {
+        let p = &*(payload as *const Pay);
+        let i = (byte_index as usize).min(p.len);
+        let end = (i + p.window).min(p.len);
+        *bytes_read = (end - i) as u32;
+        p.ptr.add(i) as *const c_char
+    }
+    let pay = Pay { ptr: bytes.as_ptr(), len: bytes.len(), window };
+    unsafe {
+        let raw = ffi::ts_parser_new();
+        let l = lang.clone().into_raw();
+        assert!(ffi::ts_parser_set_language(raw, l));
+        let input = ffi::TSInput { payload: &pay as *const Pay as *mut c_void, read: Some(read), encoding: if le { ffi::TSInputEncodingUTF16LE } else { ffi::TSInputEncodingUTF16BE }, decode: None };
+        let t = ffi::ts_parser_parse(raw, std::ptr::null(), input);
+        assert!(!t.is_null());
+        ffi::ts_parser_delete(raw);
+        drop(tree_sitter::Language::from_raw(l));
+        Tree::from_raw(t)
+    }
+}
+
 fn part_encodings(ctx: &Ctx, info: &LangInfo, docs: &[Vec<u8>], idx: &mut usize, res: &mut ShardResult) {
     let mut parser = Parser::new();
     parser.set_language(&info.language).unwrap();
@@ -217,6 +245,18 @@ fn part_encodings(ctx: &Ctx, info: &LangInfo, docs: &[Vec<u8>], idx: &mut usize,
                     res.violation(fp, m, case_json("encoding", &info.name, d, json!({"enc": enc, "unit_chunk": chunk})));
                 }
                 if s.len() != units.len() { res.nontrivial += 1; }
+            }
+            // the same text as raw bytes, every window size 4..=9 (odd sizes end chunks inside code units and pairs)
+            let bytes: Vec<u8> = units.iter().flat_map(|u| if enc == "utf16le" { u.to_le_bytes() } else { u.to_be_bytes() }).collect();
+            let whole = XTree::build(&parse_utf16_bytes(&info.language, &bytes, usize::MAX / 2, enc == "utf16le"));
+            for window in 4usize..=9 {
+                crate::case!("{}", case_json("encoding-bytes", &info.name, d, json!({"enc": enc, "window": window})));
+                res.transitions += 1;
+                let x = XTree::build(&parse_utf16_bytes(&info.language, &bytes, window, enc == "utf16le"));
+                if let Some(m) = same(&x, &whole) {
+                    res.violation("utf16-byte-chunking-changes-tree", format!("{} window {}: {}", enc, window, m), case_json("encoding-bytes", &info.name, d, json!({"enc": enc, "window": window})));
+                }
+                if units.iter().any(|u| (0xD800..0xDC00).contains(u)) { res.nontrivial += 1; }
             }
         }
         if res.too_many() { return; }
@@ -458,6 +498,17 @@ utf8:    {}", enc, t.root_node().to_sexp(), refx.sexp(&info.language));
             let x16 = XTree::build(&t);
             for i in 0..x16.nodes.len() { println!("  {}", x16.brief(i)); }
             if x16.nodes.len() != refx.nodes.len() { vec!["node count differs".into()] } else { vec![] }
+        }
+        "encoding-bytes" => {
+            let st = std::str::from_utf8(&d).unwrap();
+            let (units, _) = utf16_map(st);
+            let le = x["enc"].as_str().unwrap() == "utf16le";
+            let window = x["window"].as_u64().unwrap() as usize;
+            let bytes: Vec<u8> = units.iter().flat_map(|u| if le { u.to_le_bytes() } else { u.to_be_bytes() }).collect();
+            let whole = XTree::build(&parse_utf16_bytes(&info.language, &bytes, usize::MAX / 2, le));
+            let got = XTree::build(&parse_utf16_bytes(&info.language, &bytes, window, le));
+            println!("whole buffer:  {}\nwindow of {}: {}", whole.sexp(&info.language), window, got.sexp(&info.language));
+            match same(&got, &whole) { Some(m) => vec![format!("utf16-byte-chunking-changes-tree: {}", m)], None => vec![] }
         }
         "chunking-ranges" => {
             let splits: Vec<usize> = x["splits"].as_array().unwrap().iter().map(|v| v.as_u64().unwrap() as usize).collect();
